@@ -242,6 +242,16 @@ const TEMPLATES: &[&[&str]] = &[
     &["Wa", "Ra Wb", "Rb Ua Ra"],
     &["Wa Wb", "Rb Wa Ra"],
     &["Wa", "Ra Wb", "Rb Wc", "Rc Wa Ra"],
+    // the same classics with the critical orderings pinned (fence-based synchronisation and the
+    // SeqCst-fence order only matter for particular combinations, which random orderings rarely hit)
+    &["Wa F:rel Wb:rlx", "Rb:rlx F:acq Ra"],
+    &["Wa F:sc Rb", "Wb F:sc Ra"],
+    &["Wa", "Wb", "Ra F:sc Rb", "Rb F:sc Ra"],
+    &["Wa Wb:rel", "Rb:rlx F:sc Rc", "Wc F:sc Ra"],
+    &["Wa Wb:rel", "Rb:acq F:sc Rc", "Wc F:sc Ra"],
+    &["Wa:rlx Wb:rel", "Rb:rlx F:acq Wc:rel", "Rc:acq Ra:rlx"],
+    &["Wa", "Ra:rlx F:sc Wb", "Rb F:sc Ra"],
+    &["Wa F:sc Wb", "Rb:rlx F:sc Ra"],
     // 3-location chains
     &["Wa Wb", "Rb F Wc", "Rc F Ra"],
     &["Wa F Wb", "Ub Wc", "Rc Ra"],
@@ -259,20 +269,40 @@ pub fn gen_litmus_template(rng: &mut Rng) -> Program {
     for (i, th) in tpl.iter().enumerate() {
         let t = i + 1;
         for tok in th.split_whitespace() {
+            // "<kind><loc>[:<ordering>]": a pinned ordering is kept, the others are drawn
+            let (tok, pinned) = match tok.split_once(':') {
+                Some((a, o)) => (
+                    a,
+                    Some(match o {
+                        "rlx" => MO::Rlx,
+                        "acq" => MO::Acq,
+                        "rel" => MO::Rel,
+                        "ar" => MO::AcqRel,
+                        "sc" => MO::Sc,
+                        _ => unreachable!(),
+                    }),
+                ),
+                None => (tok, None),
+            };
             let b = tok.as_bytes();
             let loc = if b.len() > 1 { (b[1] - b'a') as usize } else { 0 };
             let op = match b[0] {
-                b'F' => Op::Fence { o: pick_fence_ord(rng, if pal == Palette::RlxOnly { Palette::RelAcq } else { pal }) },
+                b'F' => {
+                    let drawn = pick_fence_ord(rng, if pal == Palette::RlxOnly { Palette::RelAcq } else { pal });
+                    Op::Fence { o: pinned.unwrap_or(drawn) }
+                }
                 b'R' => {
                     used[loc] = true;
-                    Op::Load { a: loc as u8, o: pick_load_ord(rng, pal) }
+                    let drawn = pick_load_ord(rng, pal);
+                    Op::Load { a: loc as u8, o: pinned.unwrap_or(drawn) }
                 }
                 b'W' => {
                     used[loc] = true;
-                    if rmw_subst && rng.chance(1, 3) {
+                    if pinned.is_none() && rmw_subst && rng.chance(1, 3) {
                         Op::Swap { a: loc as u8, v: vs.constant(), o: pick_rmw_ord(rng, pal) }
                     } else {
-                        Op::Store { a: loc as u8, v: vs.constant(), o: pick_store_ord(rng, pal) }
+                        let drawn = pick_store_ord(rng, pal);
+                        Op::Store { a: loc as u8, v: vs.constant(), o: pinned.unwrap_or(drawn) }
                     }
                 }
                 b'U' => {
@@ -1165,6 +1195,35 @@ pub fn gen_wait_loops(rng: &mut Rng) -> Program {
     }
     p.threads = vec![t0];
     p.threads.extend(others);
+    p
+}
+
+/// A thread that yields right after it released a lock, while another thread takes the same lock
+/// and keeps it until the yielder has made progress (joined, or set a flag): no deadlock.
+pub fn gen_yield_after_lock(rng: &mut Rng) -> Program {
+    let mut vs = ValueSrc::new();
+    let use_rw = rng.chance(1, 3);
+    let mut p = Program { atomics: vec![0], n_mutex: 1, n_rwlock: if use_rw { 1 } else { 0 }, ..Default::default() };
+    let (acq, rel, acq2, rel2): (Op, Op, Op, Op) = if use_rw {
+        if rng.chance(1, 2) {
+            (Op::WLock { l: 0 }, Op::WUnlock { l: 0 }, Op::RLock { l: 0 }, Op::RUnlock { l: 0 })
+        } else {
+            (Op::RLock { l: 0 }, Op::RUnlock { l: 0 }, Op::WLock { l: 0 }, Op::WUnlock { l: 0 })
+        }
+    } else {
+        (Op::Lock { m: 0 }, Op::Unlock { m: 0 }, Op::Lock { m: 0 }, Op::Unlock { m: 0 })
+    };
+    // the yielder is main: it uses the lock once, only then starts the holder (so the holder
+    // cannot get in its way), yields, and publishes what the holder waits for
+    let flag = vs.constant();
+    let mut t0 = vec![acq, rel, Op::Spawn { t: 1 }, Op::Yield];
+    if rng.chance(1, 2) {
+        t0.push(Op::Yield);
+    }
+    t0.push(Op::Store { a: 0, v: flag, o: MO::Sc });
+    t0.push(Op::Join { t: 1 });
+    let holder = vec![acq2, Op::Await { a: 0, o: MO::Sc, v: flag }, rel2];
+    p.threads = vec![t0, holder];
     p
 }
 
